@@ -1091,10 +1091,8 @@ func (m *MapPollard) Verify(delHashes []Hash, proof Proof, remember bool) error 
 //
 // This function is different from Verify() in that it's not safe for concurrent access.
 func (m *MapPollard) verify(delHashes []Hash, proof Proof, remember bool) error {
-	if TreeRows(m.NumLeaves) != m.TotalRows {
-		proof.Targets = translatePositions(proof.Targets, m.TotalRows, TreeRows(m.NumLeaves))
-	}
-
+	// The targets are already in the positions of TreeRows(NumLeaves) so they
+	// must not be translated.
 	s := m.getStump()
 	_, err := Verify(s, delHashes, proof)
 	if err != nil {
